@@ -14,7 +14,12 @@ VERIF_ROOT = os.path.dirname(os.path.dirname(os.path.abspath(__file__)))
 REPO = os.environ.get("VERIF_REPO", "/repo")
 
 
-def _worker_init(repo):
+def _worker_init(repo, own_group=False):
+    if own_group:
+        try:
+            os.setpgrp()          # solver subprocesses share the worker's group and are killed with it
+        except OSError:
+            pass
     os.environ.setdefault("JAX_PLATFORMS", "cpu")
     os.environ.setdefault("OMP_NUM_THREADS", "1")
     os.environ.setdefault("XLA_FLAGS", "--xla_cpu_multi_thread_eigen=false intra_op_parallelism_threads=1")
@@ -123,7 +128,7 @@ def run_property(prop, scenarios, opts, meta):
             results.append(_work(j))
     else:
         with cf.ProcessPoolExecutor(max_workers=min(nproc, len(jobs)), mp_context=ctx,
-                                    initializer=_worker_init, initargs=(REPO,)) as ex:
+                                    initializer=_worker_init, initargs=(REPO, True)) as ex:
             futs = [ex.submit(_work, j) for j in jobs]
             for f, j in zip(futs, jobs):
                 left = deadline - time.time()
@@ -136,11 +141,15 @@ def run_property(prop, scenarios, opts, meta):
                 except Exception as e:
                     results.append({"harness_error": repr(e), "prop": prop, "harness": "?", "desc": {}})
             if not_run:
+                import signal
                 for p in list(ex._processes.values()):
                     try:
-                        p.kill()
+                        os.killpg(p.pid, signal.SIGKILL)
                     except Exception:
-                        pass
+                        try:
+                            p.kill()
+                        except Exception:
+                            pass
     return finish(prop, results, not_run, opts, meta, t0, tier, seed)
 
 
